@@ -18,10 +18,10 @@ MANIFEST = {
             'gives SD*2^k <= 2^s (mask_range_suffices, mask_bits_suffice); (a+r) mod N and a*r mod p are bijections in r '
             '(uniform_mod_perfect, mult_blind); a uniform summand unknown to the coalition suffices whatever the other summands are '
             '(sum_of_uniforms_contains_uniform); row obligation row_ok_at implies the SD bound (row_ok_additive_sound); power-of-two '
-            'bounds through _randoms lose at most ceil(log2 d) bits (eff_bound_pow2). Every internal output() call of runtime.py, '
+            'bounds through _randoms lose at most ceil(log2 d) bits for all e, d (eff_bound_pow2, pow2_row_ok). Every internal output() call of runtime.py, '
             'random.py, statistics.py is translated on each run into a row (mask bound and scale parsed from the source with Python '
             'precedence; secret range and lemma kind from a checked annotation table); per row the obligation mask_range*2^slack >= '
-            'secret_range*2^k is compiled as a Coq theorem over the stated grid (L in 1..64, l in {L,(L+1)/2,1}, k in {8,16,30,40}, '
+            'secret_range*2^k (and, where a range cap is stated, secret + all summands <= cap) is compiled as a Coq theorem over the stated grid (L in 1..64, l in {L,(L+1)/2,1}, k in {8,16,30,40}, '
             'all 2t<m<=9, PRSS on/off) and the row\'s bound arithmetic is compared with the bounds logged from the real protocols in the '
             'multi-party simulator.',
     'note': 'Per-opening bounds are proved; composition across a whole adaptive program is the union bound over openings, stated not '
@@ -31,7 +31,9 @@ MANIFEST = {
             'symbolically (eff_bound_pow2). Secret ranges, the choice of mask variable and the lemma kind per site are annotations in '
             'gen_mask_table.py (trusted, but each local-name meaning and data-flow statement is checked against the source). '
             'Multiplicative / full-field / by-design openings carry no numeric obligation beyond bound=None; np_det is recorded only. '
-            'Shares received by the coalition (C13/C15) are outside this check. NumPy sites are run only when .venv-np exists.',
+            'The np-pow row takes the scale of r from `b + r` (1); for fixed-point exponents the array constructor scales r by 2^f, which the '
+            'row ignores (conservative: it fails with and without that factor). Four rows fail and are recorded as findings F-C18-1..4 '
+            '(np pow precedence, _mod, sincos, to_bits on binary fields). Shares received by the coalition (C13/C15) are outside this check. NumPy sites are run only when .venv-np exists.',
     'technique': 'Coq counting proof of statistical distance + source-regenerated mask table with per-row compiled obligations + simulator correspondence of mask bounds',
 }
 
@@ -525,10 +527,14 @@ def run(ctx):
                   'scale': G.coq_of(row['scale']), 'secret_range': G.coq_of(row['secret']),
                   'first_failing_grid_point': None, 'coqc': info['coqc']}
         if isinstance(wit, tuple) and wit and wit[0] == 'Some':
-            vals, prss = wit[1]
+            vals, prss, reason = wit[1]
             env = dict(zip(VARS, vals))
-            detail['first_failing_grid_point'] = {**env, 'prss': prss}
+            detail['first_failing_grid_point'] = {**env, 'prss': prss,
+                                                  'reason': 'mask too small' if reason == 1 else 'mask overflows the intended range'}
+            overflow = reason == 2
             detail['at_l32_k30'] = table_witness(row, G)
+        else:
+            overflow = False
         emp = None
         scs = [s for s in SCEN if s['site'] % {'prss': 'prss'} == site or s['site'] % {'prss': 'noprss'} == site]
         scs = [s for s in scs if 'pair' in s and (have_np or not s.get('np'))]
@@ -536,7 +542,7 @@ def run(ctx):
             emp = search(scs[0], python, ctx)
             detail['empirical'] = emp
         found = bool(emp and emp.get('distinguishes'))
-        sig = 'mask-too-small site=%s' % site.split('.', 1)[1].split('#')[0]
+        sig = '%s site=%s' % ('mask-overflows-range' if overflow else 'mask-too-small', site.split('.', 1)[1].split('#')[0])
         if row['kind'] == 'KXorLow':
             sig = 'unmasked-high-bits site=%s' % site.split('.', 1)[1]
         if not found and detail['first_failing_grid_point'] is None:
